@@ -60,7 +60,9 @@ def run(prop, tier, seed):
     for p, d in COMBOS:
         for exact in (0, 1):
             jobs.append(("example", p, d, exact))
-            nref = [6] if quick else [6, 14, 24]
+            nref = [5] if quick else [6, 14, 24]
+            if quick and exact == 0 and (p, d) == ("Dirichlet", "UnitSquare"):
+                nref = [5, 14]       # one deeper mesh (non-adjacent slabs, level gaps)
             for n in nref:
                 if quick and (exact == 1 and d in ("Circle",)):
                     continue
